@@ -25,6 +25,23 @@ def engine_write_blocks(f):
     return sorted({bb for (bb, kind, adt, fld, line, pl) in f.field_accesses() if adt == "IQLEngine" and fld == "input_tuples" and live_engine(pl) and kind in ("w", "wb", "wp") and not f.is_cleanup(bb)})
 
 
+def kg_mutators(F):
+    """KnowledgeGraph methods that write the graph's own engine map or call a rule-catalog mutator"""
+    mutators = {}
+    for n in sorted(F.bodies):
+        if not n.startswith(KG + "::") or "{closure" in n or n == PUB:
+            continue
+        raw = F.raw_line(n)
+        if '"input_tuples"' not in raw and "rule_catalog::RuleCatalog::" not in raw:
+            continue
+        f = F.fn(n)
+        wb = engine_write_blocks(f) if '"input_tuples"' in raw else []
+        rcm = [c.bb for c in f.normal_calls() if c.resolved in RC_MUT]
+        if wb or rcm:
+            mutators[n] = (wb, rcm)
+    return mutators
+
+
 def run(F, ctx):
     ctx.explanation = (
         "Decides: (a) every KnowledgeGraph method that mutates the served state (base tuples of its engine, or the rule catalog) reaches publish_snapshot on every success "
@@ -35,15 +52,7 @@ def run(F, ctx):
     )
     # ---- a
     ctx.rule("R-C20-a", "publish_snapshot on every success path after a mutation of served state", floor=10)
-    mutators = {}
-    for n in sorted(F.bodies):
-        if not n.startswith(KG + "::") or "{closure" in n or n == PUB:
-            continue
-        f = F.fn(n)
-        wb = engine_write_blocks(f) if '"input_tuples"' in F.raw_line(n) else []
-        rcm = [c.bb for c in f.normal_calls() if c.resolved in RC_MUT]
-        if wb or rcm:
-            mutators[n] = (wb, rcm)
+    mutators = kg_mutators(F)
     for n, (wb, rcm) in mutators.items():
         f = F.fn(n)
         short = n.split("::")[-1]
